@@ -81,7 +81,9 @@ func newC02Neg(feats []xmpp.StreamFeature, tee bool) *c02Neg {
 	return n
 }
 
-var c02ClearRe = regexp.MustCompile(`^\s*(<\?xml[^>]*\?>)?\s*<stream:stream [^>]*>\s*(<starttls xmlns='urn:ietf:params:xml:ns:xmpp-tls'/>)?\s*(</stream:stream>)?\s*$`)
+// nothing but the declaration, the header and the STARTTLS request: no closing tag either (the statement says "never
+// transmits anything except its stream header and the STARTTLS request"; the library, as it stands, sends none)
+var c02ClearRe = regexp.MustCompile(`^\s*(<\?xml[^>]*\?>)?\s*<stream:stream [^>]*>\s*(<starttls xmlns='urn:ietf:params:xml:ns:xmpp-tls'/>)?\s*$`)
 
 // c02Session runs one client session against the scripted server.
 func c02Session(rc *RC, idx int, tag string, origin jid.JID, neg *c02Neg, plan c02Plan, tee bool, cert tls.Certificate) c02Outcome {
@@ -332,7 +334,7 @@ func c02Session(rc *RC, idx int, tag string, origin jid.JID, neg *c02Neg, plan c
 	return o
 }
 
-var c02ClearReWS = regexp.MustCompile(`^\s*<open [^>]*/>\s*(<starttls xmlns='urn:ietf:params:xml:ns:xmpp-tls'/>)?\s*(<close [^>]*/>)?\s*$`)
+var c02ClearReWS = regexp.MustCompile(`^\s*<open [^>]*/>\s*(<starttls xmlns='urn:ietf:params:xml:ns:xmpp-tls'/>)?\s*$`)
 
 // c02SessionWS: the same client over WebSocket framing (RFC 7395) on a connection that is not secure. The scripted server
 // never lets TLS happen (it answers <starttls/> with failure, garbage, white space, silence or a cut), and plays along in
